@@ -16,6 +16,7 @@ import sys
 
 from hypothesis import strategies as st
 
+from vlib import calib
 from vlib import simk
 from vlib.runner import Property
 from vlib.runner import Result
@@ -418,7 +419,7 @@ def live_tier(tier, seed, stats):
             a = subprocess.Popen([sys.executable, "-c", "import sys; sys.exit(%d)" % what[1]])
             want = what[1]
         else:
-            a = subprocess.Popen([sys.executable, "-c", "import time; time.sleep(60)"])
+            a = subprocess.Popen(["sleep", "60"], preexec_fn=calib.default_signals)
             want = -what[1]
         case = {"live": list(what)}
         p = psutil.Process(a.pid)
